@@ -95,8 +95,10 @@ var workloads = map[string]func(seed uint64) string{
 		if err := s.CreateEmulator(); err != nil {
 			return "create: " + err.Error()
 		}
-		// a small program in ROM bank 0: loop with WDM and a store to WRAM
-		prog := []byte{0x18, 0xFB, 0xC2, 0x30, 0xA2, byte(3 + r.N(9)), 0x00, 0xA9, byte(r.N(256)), byte(r.N(256)), 0x8D, 0x00, 0x10, 0x42, 0x07, 0xCA, 0xD0, 0xF5, 0xDB}
+		// a small program in ROM bank 0: a loop that stores to WRAM, writes and reads back a hardware register, and WDMs
+		prog := []byte{0x18, 0xFB, 0xC2, 0x30, 0xA2, byte(3 + r.N(9)), 0x00,
+			0xA9, byte(r.N(256)), byte(r.N(256)), 0x8D, 0x00, 0x21, 0x8D, 0x00, 0x10, 0xAD, 0x00, 0x21, 0x8D, 0x02, 0x10,
+			0x42, 0x07, 0xCA, 0xD0, 0xEC, 0xDB}
 		copy(s.ROM[0:], prog)
 		s.CPU.Reset()
 		s.SetPC(0x008000)
@@ -104,8 +106,8 @@ var workloads = map[string]func(seed uint64) string{
 		s.Logger = w
 		var wdm []byte
 		s.CPU.OnWDM = func(v byte) { wdm = append(wdm, v) }
-		ok := s.RunUntil(0x008012, 5000)
-		return fmt.Sprintf("%v pc=%06x a=%04x x=%04x cyc=%d wram=%02x%02x wdm=%x log=%d/%d", ok, s.GetPC(), s.CPU.RA, s.CPU.RX, s.CPU.AllCycles, s.WRAM[0x1000], s.WRAM[0x1001], wdm, w.writes, w.bytes)
+		ok := s.RunUntil(0x00801B, 5000)
+		return fmt.Sprintf("%v pc=%06x a=%04x x=%04x cyc=%d wram=%02x%02x hw=%02x%02x wdm=%x log=%d/%d", ok, s.GetPC(), s.CPU.RA, s.CPU.RX, s.CPU.AllCycles, s.WRAM[0x1000], s.WRAM[0x1001], s.WRAM[0x1002], s.WRAM[0x1003], wdm, w.writes, w.bytes)
 	},
 	"emitter": func(seed uint64) string {
 		r := prng.New(seed)
